@@ -325,7 +325,7 @@ MANIFEST = dict(
          'history\'s transactions, and a differential oracle compares every snapshot at or after the pack time, for every '
          'object reachable then, before/after the pack and after reopen; plus iteration/undo of later transactions, no '
          'invented data, no dangling references, idempotence.',
-    note='one graph history (G1/G0) built through the real DB layer; object graph <= 7 objects; custom packer hooks and '
+    note='graph histories G1/G0/G2/G3 built through the real DB layer; object graph <= 7 objects; one injected commit for commit_during_pack; custom packer hooks and '
          'blob packing (C13) not covered here; float->TimeStamp conversion of the pack time bypassed.',
     design_ref='DESIGN.md section 4, C07',
 )
